@@ -36,7 +36,7 @@ out = ["# Seeded property-breaking changes kept with the checks",
        "the patch) and `meta.json` (what was run, what each check reported).  All were written by independent sub-agents that saw only the",
        "property text and a scratch worktree; each was re-confirmed here: the 244 pinned tests pass with the patch, the demo fails with it and",
        "passes without it.  `tools/reseed.sh` repeats that and re-runs `./check` on a patched scratch copy (never on /repo).",
-       "C11-1 is not kept: the repair of the layout hand-over (24c034a) rewrote the code it changed.",
+       "The C11-1 of the first request was replaced by a new one: the repair of the layout hand-over (24c034a) rewrote the code it changed; C13-1 was re-based by hand onto f7816a7.",
        "",
        "| id | change | caught by | confirmed (tests pass, demo fails/passes) |",
        "|---|---|---|---|"]
